@@ -17,7 +17,8 @@ pub const SQLS: [&str; 7] = [
 ];
 /// Type-list alphabet (index = `types` field of the ops), as OIDs of built-in types.
 /// (the last two are long and differ in their first entry only)
-pub const TYPELISTS: [&[u32]; 7] = [&[], &[23], &[25], &[20], &[23, 25], &[23, 25, 25, 25, 25, 25], &[20, 25, 25, 25, 25, 25]];
+/// (`705` is UNKNOWN: a list that ends in it is another key than the list without it)
+pub const TYPELISTS: [&[u32]; 8] = [&[], &[23], &[25], &[20], &[23, 25], &[23, 25, 25, 25, 25, 25], &[20, 25, 25, 25, 25, 25], &[23, 705]];
 /// Custom recycling SQL alphabet.
 pub const CUSTOMS: [&str; 3] = ["SELECT 1", "DISCARD ALL", "SELECT 1; RESET ALL"];
 
@@ -176,7 +177,7 @@ pub const SLOTS: usize = 2;
 fn gen_key(rng: &mut Rng) -> (u8, u8) {
     // text 1 ("SELECT $1") dominates so that keys differing only in types are common
     let sql = rng.weighted(&[2, 8, 1, 1, 2, 2, 1]) as u8;
-    let types = if sql == 4 { *rng.pick(&[0u8, 5, 5, 6, 6]) } else { rng.weighted(&[4, 3, 3, 1, 1, 1, 1]) as u8 };
+    let types = if sql == 4 { *rng.pick(&[0u8, 5, 5, 6, 6]) } else { rng.weighted(&[4, 3, 3, 1, 1, 1, 1, 2]) as u8 };
     (sql, types)
 }
 
